@@ -13,6 +13,8 @@ from . import simrun as R
 from . import sim_check as SC
 from . import complex_lib as L
 
+CLAIM_MORE = 'ALSO (coq/Props/C15x.v): the call trace and the user-callback log of every returning run (choice on the statuses before, rate / influence set / rates on the statuses after, for exactly the changed node and its influence set), no Python error inside the covering domain, step law at every loop head.'
+
 CLAIM = dict(
     text="Machine-checked theorems (coq/Props/C15.v, closed under the global context) over an executable model of Gillespie_complex_contagion "
          "written as the code is, for ARBITRARY user rate / transition / influence-set functions (Section variables) with non-negative rates and a "
